@@ -30,6 +30,12 @@ func taskID() int {
 	return -1
 }
 
+// LockEpoch is incremented whenever a simulated lock is released (incl. the end
+// of a Once body). A monitor that sees package-level state change accepts the
+// change if the epoch advanced since its previous evaluation: the write
+// happened under the lock and is only noticed at the first yield after it.
+var LockEpoch uint64
+
 // LocksHeld reports how many simulated locks (incl. running Once bodies) the
 // running task holds. Writes to package-level state are tolerated by the
 // monitors only while this is > 0.
@@ -78,6 +84,7 @@ func MutexUnlock(m interface{}) {
 	}
 	st.depth = 0
 	lockDepth[st.owner]--
+	LockEpoch++
 }
 
 // OnceDo replaces (*sync.Once).Do.
